@@ -12,7 +12,7 @@ SPEC = {
             "validate_txs) + 0-2 `rq` "
             "ops (check_required_signers on generated signer and witness lists); distinct = sha1 of op text; non-trivial = the case "
             "has both an accepted and a rejected check",
-    "trusted_base": ["Model/Witness.lean is a hand transcription of mk_alonzo_vk_wits_check_list, verify_signature (length panics), "
+    "trusted_base": ["Model/Witness.lean is a hand transcription of mk_alonzo_vk_wits_check_list, verify_signature (wrong lengths verify nothing), "
                      "check_vk_wit, check_remaining_vk_wits, check_required_signers, find_and_check_req_signer, check_vkey_input_wits "
                      "and Shelley-MA check_witnesses; tie = stream `witness` (verdict class per op, per-rule and whole-transaction)",
                      "Ed25519 `verify` and Blake2b-224 `hash` are parameters of the model and of the theorems (all functions); the "
